@@ -267,6 +267,7 @@ pub fn run_thr(trace: &Trace) -> (RunReport, Vec<u8>) {
         change_points: vec![],
         fair_after: usize::MAX,
         starve: None,
+        starve_in_sync: false,
         budget: 20_000.max(200 * total_ops),
     });
     let policy = if !trace.schedule.is_empty() || trace.sched.is_none() {
@@ -282,6 +283,7 @@ pub fn run_thr(trace: &Trace) -> (RunReport, Vec<u8>) {
         budget: spec.budget,
         fair_after: spec.fair_after,
         starve: if trace.schedule.is_empty() { spec.starve } else { None },
+        starve_in_sync: spec.starve_in_sync,
     }));
     let out: Arc<Mutex<Vec<Rec>>> = Arc::new(Mutex::new(Vec::new()));
     let burst = trace.engine == Engine::Burst;
@@ -1360,6 +1362,7 @@ fn thr_stream(pop: &str) -> Option<u64> {
         "thr-warm" => 28,
         "thr-iter-mixed" => 29,
         "thr-inval" => 30,
+        "thr-long" => 31,
         _ => return None,
     })
 }
@@ -1444,6 +1447,7 @@ pub fn generate(pop: &str, seed: u64, run: u64) -> Option<Trace> {
     let mut threads: Vec<Vec<OpRec>> = Vec::new();
     let mut engine = Engine::Thr;
     let mut burst_stall = false;
+    let mut long_stall = false;
     match pop {
         "thr-mixed" | "thr-strict" | "thr-expiry" | "thr-callback" => {
             let nthreads = rng.range(2, 4) as usize;
@@ -1858,6 +1862,116 @@ pub fn generate(pop: &str, seed: u64, run: u64) -> Option<Trace> {
                 threads.push(prog);
             }
         }
+        "thr-long" => {
+            // Longer programs over more keys, mostly with lagged maintenance (the clock moves
+            // past the periodic-sync interval again and again, so maintenance only runs when a
+            // queue reaches its flush point, inside whichever thread gets there): batches of
+            // tens of records are applied while other threads keep operating on the same keys,
+            // reads are applied long after they were recorded, the repeat loop of a pass runs.
+            // "stall" variant: thread 1 is parked for hundreds of steps (often inside a
+            // maintenance pass, holding the flag and the deques lock) while thread 0 queues
+            // more than a flush point of records
+            long_stall = rng.chance(1, 4);
+            let nthreads = if long_stall { 2 } else { rng.range(2, 3) as usize };
+            let nkeys = if long_stall { rng.range(6, 12) as u16 } else { rng.range(3, 8) as u16 };
+            cfg.cap = *rng.pick(&[None, None, Some(2), Some(4), Some(8), Some(64)]);
+            match rng.below(5) {
+                0 => {
+                    cfg.ttl = Some(*rng.pick(&[SEC, 3 * SEC, 20 * SEC]));
+                    cfg.tti = None;
+                }
+                1 => {
+                    cfg.tti = Some(*rng.pick(&[SEC, 3 * SEC, 20 * SEC]));
+                    cfg.ttl = None;
+                }
+                _ => {
+                    cfg.ttl = None;
+                    cfg.tti = None;
+                }
+            }
+            let lagged = if long_stall { rng.chance(1, 2) } else { rng.chance(3, 4) };
+            let faulty = rng.chance(1, 3);
+            // residents and their popularity / recency (maintenance has run when the threads start)
+            if rng.chance(1, 2) {
+                for k in 0..nkeys {
+                    if rng.chance(2, 3) {
+                        prologue.push(OpRec::plain(Op::Insert { k, vid: next_vid, w: 1 }));
+                        next_vid += 1;
+                    }
+                }
+                prologue.push(OpRec::plain(Op::Sync));
+                for k in 0..nkeys {
+                    for _ in 0..rng.below(3) {
+                        prologue.push(OpRec::plain(Op::Get { k }));
+                    }
+                }
+            }
+            let max_len = if nthreads == 2 { 70 } else { 45 };
+            for t in 0..nthreads {
+                let len = if long_stall {
+                    if t == 0 {
+                        rng.range(80, 170) as usize
+                    } else {
+                        rng.range(2, 12) as usize
+                    }
+                } else {
+                    rng.range(8, max_len) as usize
+                };
+                let mut prog = Vec::new();
+                // a reader-heavy thread fills the read queue, a writer-heavy one the write queue
+                let reader = rng.chance(1, if long_stall { 2 } else { 3 });
+                if lagged {
+                    prog.push(OpRec::plain(Op::Advance { ns: 501 * MS }));
+                }
+                if long_stall && t == 1 && rng.chance(2, 3) {
+                    // enters a maintenance pass at once (and is parked there)
+                    prog.push(OpRec::plain(Op::Sync));
+                }
+                for _ in 0..len {
+                    let wi = if reader { 2 } else { 8 };
+                    let wg = if reader { 12 } else { 5 };
+                    let op = match rng.weighted(&[wi, wg, 1, 1, 2, if t == 0 { 1 } else { 0 }, if long_stall && t == 0 { 0 } else { 1 }, if lagged { 3 } else { 1 }]) {
+                        0 => {
+                            let vid = next_vid;
+                            next_vid += 1;
+                            Op::Insert { k: rng.below(nkeys as u64) as u16, vid, w: *rng.pick(&[0u32, 1, 1, 1, 2, 3]) }
+                        }
+                        1 => Op::Get { k: rng.below(nkeys as u64) as u16 },
+                        2 => Op::Contains { k: rng.below(nkeys as u64) as u16 },
+                        3 => Op::Iter,
+                        4 => Op::Invalidate { k: rng.below(nkeys as u64) as u16 },
+                        5 => {
+                            if rng.chance(1, 3) {
+                                Op::InvalidateAll
+                            } else {
+                                Op::Get { k: rng.below(nkeys as u64) as u16 }
+                            }
+                        }
+                        6 => Op::Sync,
+                        _ => Op::Advance {
+                            ns: if lagged { *rng.pick(&[501 * MS, 501 * MS, 501 * MS, SEC, 1]) } else { *rng.pick(&[1u64, MS, SEC, 3 * SEC]) },
+                        },
+                    };
+                    let mut f = Faults::default();
+                    if faulty {
+                        if matches!(op, Op::Get { .. }) && rng.chance(1, 10) {
+                            f.read_drop = true;
+                        }
+                        if matches!(op, Op::Get { .. } | Op::Insert { .. } | Op::Invalidate { .. }) && rng.chance(1, 10) {
+                            f.hk_contended = rng.range(1, 3) as u8;
+                        }
+                        if matches!(op, Op::Insert { .. } | Op::Invalidate { .. }) && rng.chance(1, 12) {
+                            f.write_full = rng.range(1, 6) as u8;
+                        }
+                    }
+                    prog.push(OpRec { op, f });
+                }
+                if rng.chance(1, 6) {
+                    prog.push(OpRec::plain(Op::DropHandle));
+                }
+                threads.push(prog);
+            }
+        }
         "burst" => {
             engine = Engine::Burst;
             cfg.cap = *rng.pick(&[None, Some(0), Some(1), Some(4), Some(16), Some(100)]);
@@ -1928,7 +2042,7 @@ pub fn generate(pop: &str, seed: u64, run: u64) -> Option<Trace> {
     }
     // shard amount of the DashMap: a separate stream, so that the programs and schedules a
     // seed generates do not depend on it
-    if matches!(pop, "thr-mixed" | "thr-strict" | "thr-expiry" | "thr-warm" | "thr-inval") {
+    if matches!(pop, "thr-mixed" | "thr-strict" | "thr-expiry" | "thr-warm" | "thr-inval" | "thr-long") {
         let mut r2 = Prng::new(mix(sub, 77, 0));
         if r2.chance(1, 3) {
             cfg.shards = Some(*r2.pick(&[2usize, 8, 16]));
@@ -1960,6 +2074,11 @@ pub fn generate(pop: &str, seed: u64, run: u64) -> Option<Trace> {
         // thread 1 is parked soon after it entered maintenance, for most of the run
         let a = rng.range(6, 14) as usize;
         Some((1usize, a, a + 300 * total))
+    } else if long_stall {
+        // the other thread queues more than a flush point of records meanwhile (the pass
+        // repeats; what it applies is stale by the time it is applied)
+        let a = rng.range(0, 40) as usize;
+        Some((1usize, a, a + rng.range(300, 2500) as usize))
     } else if rng.chance(1, 4) && threads.len() > 1 {
         let a = rng.below(expected_steps as u64) as usize;
         Some((rng.below(threads.len() as u64) as usize, a, a + rng.range(5, 60) as usize))
@@ -1967,6 +2086,10 @@ pub fn generate(pop: &str, seed: u64, run: u64) -> Option<Trace> {
         None
     };
     let budget = if engine == Engine::Burst { 400 * total + 20_000 } else { 20_000 };
+    let fair_after = match (pop, starve) {
+        ("thr-long", Some((_, _, b))) => fair_after.max(b + if long_stall { expected_steps } else { 0 }),
+        _ => fair_after,
+    };
     Some(Trace {
         engine,
         config: cfg,
@@ -1979,6 +2102,7 @@ pub fn generate(pop: &str, seed: u64, run: u64) -> Option<Trace> {
             change_points,
             fair_after,
             starve,
+            starve_in_sync: long_stall,
             budget,
         }),
         prologue,
